@@ -73,6 +73,20 @@ def items(tier):
         if not (o.get("post_insert") or o.get("backward") or o.get("reload")):
             for k in (1, 2, 3):
                 out.append((sp, dict(o, resume_from=k, pause_queries=True)))
+    # a sub-project task (not configured from a file) as the only task of a component, between two worked tasks: absence steps deleted / inserted afterwards
+    subc = {"tasks": [{"name": "T0", "work": 2.0}, {"name": "S1", "work": 3.0, "sub": {}}, {"name": "T2", "work": 1.0}], "links": [[0, 1, "FS"], [1, 2, "FS"]],
+            "components": [{"name": "module", "tasks": [1]}, {"name": "frame", "tasks": [0, 2]}],
+            "workplaces": [{"name": "bay", "cap": 1.0, "targets": [1], "facilities": [{"name": "rig", "skills": {"S1": 1.0}}]}],  # (a component is only carried into a workplace equipped for its task)
+            "teams": [{"name": "TM0", "targets": [0, 2], "workers": [{"name": "W0", "skills": {"T0": 1.0, "T2": 1.0}, "cost": 1.0}]}]}
+    for ab in ([1], [3, 4], [0, 3]):
+        out.append((subc, {"rule": "TSLACK", "absence": ab, "max_time": 16, "post_remove": True}))
+        out.append((subc, {"rule": "TSLACK", "absence": ab, "max_time": 16}))
+        out.append((subc, {"rule": "TSLACK", "absence": ab, "max_time": 16, "post_insert": [2]}))
+    # a component all of whose tasks are complete from the start, next to ordinary ones: holidays inserted at the very beginning
+    done = dict(F.with_teams({"tasks": [{"name": "T0", "work": 2.0, "progress": 1.0}, {"name": "T1", "work": 2.0}, {"name": "T2", "work": 1.0, "progress": 1.0}], "links": [[1, 2, "FS"]]}, "POOL2"),
+                components=[{"name": "drawings", "tasks": [0]}, {"name": "hull", "tasks": [1]}, {"name": "papers", "tasks": [2]}])
+    for ins in ([0], [0, 1], [1], [0, 2]):
+        out.append((done, {"rule": "TSLACK", "max_time": 12, "post_insert": ins}))
     # the same invariants on a run that follows an earlier run on the same project object
     for sp, o in list(out)[:: (7 if tier == "quick" else 2)]:
         out.append((sp, dict(o, presim=1)))
